@@ -27,20 +27,20 @@ NONTRIVIAL = {
 # (family, quick K, thorough K)
 BATTERY = {
     "C01": [("rand", 500, 12000), ("stop", 300, 5000), ("dead", 150, 3000), ("ties", 80, 768),
-            ("tiny", 60, 324), ("edit", 100, 2500), ("slow", 40, 108), ("zerow", 36, 36), ("degen", 75, 75), ("jump1", 54, 108), ("finaldeadend", 72, 72)],
+            ("tiny", 60, 324), ("edit", 100, 2500), ("slow", 40, 108), ("zerow", 36, 36), ("degen", 75, 75), ("jump1", 72, 144), ("finaldeadend", 72, 72)],
     "C04": [("rand", 500, 12000), ("stop", 300, 5000), ("ties", 140, 768), ("dead", 100, 2000),
-            ("tiny", 60, 324), ("samerow", 144, 144), ("gap5", 16, 16), ("degen", 75, 75)],
+            ("tiny", 60, 324), ("samerow", 144, 144), ("gap5", 16, 16), ("degen", 75, 75), ("jump1", 72, 144), ("order3", 48, 48)],
     "C02": [("stop", 700, 16000), ("dead", 250, 4800), ("ties", 80, 768), ("tiny", 60, 324),
             ("bigrew", 36, 36), ("slow", 40, 108), ("slowrew", 48, 72), ("degen", 75, 75), ("minreachrank", 48, 48), ("zerow", 36, 36)],
     "C03": [("dead", 400, 8000), ("rand", 400, 8000), ("stop", 200, 4000), ("tiny", 80, 324),
             ("nonabs", 100, 504), ("zerow", 36, 36), ("degen", 75, 75), ("duplabel", 12, 12), ("finaldeadend", 72, 72), ("keycollide", 2, 2)],
     "C05": [("stop", 700, 16000), ("dead", 200, 4000), ("ties", 140, 768), ("nonabs", 120, 504),
-            ("bigrew", 36, 36), ("diag", 80, 160), ("samerow", 144, 144), ("slowrew", 36, 72), ("gap5", 16, 16), ("degen", 75, 75), ("minreachrank", 48, 48), ("zerow", 36, 36), ("keycollide", 2, 2)],
+            ("bigrew", 36, 36), ("diag", 80, 160), ("samerow", 144, 144), ("slowrew", 36, 72), ("gap5", 16, 16), ("degen", 75, 75), ("minreachrank", 48, 48), ("zerow", 36, 36), ("keycollide", 2, 2), ("order3", 48, 48)],
     "C06": [("stop", 600, 12000), ("dead", 300, 8000), ("rand", 200, 4000), ("tiny", 60, 324),
             ("edit", 120, 3000), ("nonabs", 100, 504), ("slow", 40, 108),
             ("zerow", 36, 36), ("degen", 75, 75), ("duplabel", 12, 12), ("finaldeadend", 72, 72)],
     "C14": [("stop", 800, 16000), ("dead", 250, 4800), ("diag", 160, 160), ("nonabs", 60, 504),
-            ("samerow", 144, 144), ("loopdiag", 72, 72), ("slowrew", 36, 72), ("forced", 64, 128), ("degen", 75, 75), ("minreachrank", 48, 48), ("zerow", 36, 36)],
+            ("samerow", 144, 144), ("loopdiag", 72, 72), ("slowrew", 36, 72), ("forced", 64, 128), ("degen", 75, 75), ("minreachrank", 48, 48), ("zerow", 36, 36), ("order3", 48, 48)],
     "C10": [("hist", 250, 3000), ("edit", 120, 2000), ("zerow", 36, 36), ("degen", 75, 75)],
     "C13": [("perm", 400, 8000)],
 }
@@ -95,6 +95,8 @@ def edit_script(calls):
     out.append({"op": "snap", "d": 2, "py": 1})
     for c in calls:
         # objects made before the edit hold the old lists' aliases: always a fresh object here
+        # (what an object built before the edit means afterwards is not fixed by any property: an
+        # implementation that copies its description at construction would keep solving the old one)
         out.append({"op": "call", "d": 2, "py": 1, "prune": bool(c["prune"]), "mode": "solve", "obj": "new"})
         out.append({"op": "snap", "d": 2, "py": 1})
     return out
